@@ -32,7 +32,11 @@ type caseIn struct {
 	Stream     string        `json:"stream"`      // field | nested | lenb | full | random | excluded
 	Note       string        `json:"note"`        // which field / which boundary value
 	Raw        string        `json:"raw"`         // stream "raw" only: hex of the input bytes (val is null)
+	Fn         string        `json:"fn"`          // stream "glue" only: wrapper of api_host.pb.go
+	Side       string        `json:"side"`        // stream "glue" only: req | resp | log
 }
+
+func deepEq(a, b interface{}) bool { return reflect.DeepEqual(a, b) }
 
 // decRes is the result of one decoder on one byte string.
 type decRes struct {
